@@ -17,7 +17,7 @@ deriving Repr, BEq, DecidableEq, Inhabited
 mutual
 inductive Ty where
   | path (global : Bool) (segs : List Seg)
-  /-- `<self as tr>::rest` -/
+  /-- `<self as tr>::rest`; with `tsegs = []` the path without a trait, `<self>::rest` -/
   | qpath (self : Ty) (tglobal : Bool) (tsegs : List Seg) (rest : List Seg)
   | ref (lt : Option String) (mut_ : Bool) (t : Ty)
   | ptr (mut_ : Bool) (t : Ty)
@@ -60,7 +60,9 @@ mutual
 def Ty.toks : Ty → Toks
   | .path g segs => (if g then ["::"] else []) ++ Seg.toksL segs
   | .qpath s tg tsegs rest =>
-      "<" :: s.toks ++ "as" :: (if tg then ["::"] else []) ++ Seg.toksL tsegs ++ ">" :: "::" :: Seg.toksL rest
+      -- no trait segments: the qualified path without a trait, `<T>::Assoc`
+      "<" :: s.toks ++ (if tsegs.isEmpty then [] else "as" :: (if tg then ["::"] else []) ++ Seg.toksL tsegs) ++
+        ">" :: "::" :: Seg.toksL rest
   | .ref lt m t =>
       "&" :: (match lt with | some l => [l] | none => []) ++ (if m then ["mut"] else []) ++ t.toks
   | .ptr m t => "*" :: (if m then "mut" else "const") :: t.toks
@@ -112,6 +114,12 @@ where it is placed behind `&`, in front of `:` or in place of `Self` -/
 def Ty.parenIfPlus : Ty → Ty
   | .dynT g segs (b :: bs) => .paren (.dynT g segs (b :: bs))
   | t => t
+
+/-- in front of the `:` of a where-predicate: besides `(A + B): Trait`, a qualified path without a trait is
+parenthesized — `where <T>::Assoc: Trait` would be read as generic parameters on the where-clause -/
+def Ty.parenInWhere : Ty → Ty
+  | .qpath s tg [] rest => .paren (.qpath s tg [] rest)
+  | t => t.parenIfPlus
 
 /-! `expand_self`: replace every type node that *is* `Self` -/
 
@@ -248,6 +256,11 @@ deriving Inhabited
 def WPred.toks : WPred → Toks
   | .ty lts t bs => forToks lts ++ t.toks ++ ":" :: boundsToks bs
   | .lt a bs => a :: ":" :: sepBy "+" (bs.map fun b => [b])
+
+/-- a predicate as it is copied into a generated where-clause (`<T>::Assoc: Trait` is parenthesized there, too) -/
+def WPred.inWhere : WPred → WPred
+  | .ty lts (.qpath s tg [] rest) bs => .ty lts (.paren (.qpath s tg [] rest)) bs
+  | p => p
 
 def WPred.expandSelf (to : Ty) : WPred → WPred
   | .ty lts t bs => .ty lts (Ty.expandSelf to t) (bs.map (TBound.expandSelf to))
